@@ -858,13 +858,13 @@ func (fc *FnCtx) allocObligation(pos token.Pos, bytes string, what string) {
 	}
 	env := fc.contractEnv(fc.cur, fc.entry)
 	bound := env.eval(fc.c.AllocBound)
-	w, _, _ := isIntType(bound.T)
-	b := bound.L[0]
+	var b string
 	if bound.C != nil {
 		b = fc.constOfType(bound.C, types.Typ[types.Int]).L[0]
-		w = 64
+	} else {
+		w, _, _ := isIntType(bound.T)
+		b = fc.convInt(bound.L[0], w, false, 64)
 	}
-	b = fc.convInt(b, w, false, 64)
 	fc.oblige("alloc", what, app("bvule", bytes, b), pos, "allocation exceeds the declared bound")
 }
 
@@ -874,6 +874,11 @@ func (fc *FnCtx) doReturn(x *ssa.Return) {
 	sig := fc.fn.Signature.Results()
 	for i, r := range x.Results {
 		res = append(res, fc.coerce(fc.operand(r), sig.At(i).Type()))
+	}
+	if fc.c != nil && fc.c.DeadCode[fmt.Sprintf("ret%d", fc.retCount)] {
+		// declared unreachable (e.g. 32-bit only code): proved, not assumed
+		fc.obligeAt(fc.cur, "unreachable", fmt.Sprintf("ret%d", fc.retCount), "false", x.Pos(), "return declared dead code")
+		return
 	}
 	fc.cover(fmt.Sprintf("ret%d", fc.retCount), fc.cur, x.Pos())
 	if fc.c == nil {
@@ -927,7 +932,27 @@ func (fc *FnCtx) loopEnv(li *loopInfo, st *State, phiVals map[*ssa.Phi]Val) *Env
 	return env
 }
 
+// autoInvariants: the hidden index of a range-over-slice loop never drops below -1 (checked like any invariant).
+func (fc *FnCtx) autoInvariants(li *loopInfo, phiVals map[*ssa.Phi]Val) []string {
+	var out []string
+	for _, in := range li.header.Instrs {
+		phi, ok := in.(*ssa.Phi)
+		if !ok {
+			break
+		}
+		if phi.Comment == "rangeindex" {
+			if v, ok := phiVals[phi]; ok {
+				out = append(out, and(app("bvsge", v.L[0], bvLit(^uint64(0), 64)), app("bvslt", v.L[0], maxCapLit)))
+			}
+		}
+	}
+	return out
+}
+
 func (fc *FnCtx) checkInvariant(li *loopInfo, st *State, phiVals map[*ssa.Phi]Val, kind, detail string) {
+	for i, t := range fc.autoInvariants(li, phiVals) {
+		fc.obligeAt(st, kind, fmt.Sprintf("loop%d!auto%d", li.ord, i+1), t, li.header.Instrs[0].Pos(), kind+": -1 <= range index < 2^47")
+	}
 	if fc.c == nil {
 		return
 	}
@@ -940,6 +965,9 @@ func (fc *FnCtx) checkInvariant(li *loopInfo, st *State, phiVals map[*ssa.Phi]Va
 }
 
 func (fc *FnCtx) assumeInvariant(li *loopInfo, st *State) {
+	for _, t := range fc.autoInvariants(li, li.phiFresh) {
+		st.assume(t)
+	}
 	if fc.c == nil {
 		return
 	}
